@@ -1744,9 +1744,9 @@ def c08_real(ctx):
 PLANS["C08"] = dict(
     modules=["Wx.Job.C08", "Wx.Job.C08b", "Wx.Job.C06", "Wx.Job.C08t", "Wx.Job.C08m", "Wx.Job.SimInduct3", "Wx.Cli.Action", "Wx.Cli.SignalPrioThm"],
     translate=True,
-    theorems=["Wp.interrupt_and_terminate_are_urgent", "Wp.other_signals_are_high", "Wp.only_two_signals_are_singled_out", "Wp.signalPrio_translated", "Jm.c08_main_bound", "Jm.dead_stays_dead", "Ca.first_interrupt_quits_gracefully", "Ca.graceful_quit_sequence", "Ca.other_signals_pass", "Ca.interrupts_escalate", "Jm.c08_quit_bound", "Jm.c08_deadline", "Jm.quit_deadline", "Jm.idle_timer", "Jm.deadline_simInv", "Jm.nextEvent_some", "Jm.nextEvent_none", "Jm.c08_delete_after_stop", "Jm.c08_delete_idle", "Jm.c08_same_script_fixed", "Jm.c08_fails_today", "Jm.timer_fires", "Jm.expiry_kills", "Jm.graceful_stop_step", "Jm.held_back", "Jm.c04"],
+    theorems=["Wp.interrupt_and_terminate_are_urgent", "Wp.other_signals_are_high", "Wp.only_two_signals_are_singled_out", "Wp.signalPrio_translated", "Jm.c08_main_bound", "Jm.dead_stays_dead", "Ca.first_interrupt_quits_gracefully", "Ca.graceful_quit_sequence", "Ca.other_signals_pass", "Ca.interrupts_escalate", "Ca.unmapped_signals_pass_unchanged", "Ca.mapped_interrupt_does_not_quit", "Ca.translate_one", "Ca.last_mapping_wins", "Ca.keyboard_eof_quits_gracefully", "Ca.keyboard_eof_ignored_without_option", "Jm.c08_quit_bound", "Jm.c08_deadline", "Jm.quit_deadline", "Jm.idle_timer", "Jm.deadline_simInv", "Jm.nextEvent_some", "Jm.nextEvent_none", "Jm.c08_delete_after_stop", "Jm.c08_delete_idle", "Jm.c08_same_script_fixed", "Jm.c08_fails_today", "Jm.timer_fires", "Jm.expiry_kills", "Jm.graceful_stop_step", "Jm.held_back", "Jm.c04"],
     bins=[("lib", ["wxquit", "wxquitreal"]), ("cli", ["wxcli-main", "wxcliaction"])],
-    streams=lambda ctx: c08_streams(ctx) + [c08_real(ctx), cli_e2e(ctx, "C08")] + c05_streams(ctx, "cli-quit", "C08", cliquit_cases, cliquit_oracle),
+    streams=lambda ctx: c08_streams(ctx) + [c08_real(ctx), cli_e2e(ctx, "C08")] + c05_streams(ctx, "cli-quit", "C08", cliquit_cases, cliquit_oracle) + c05_streams(ctx, "cli-sigmap", "C08", sigmap_cases, sigmap_oracle),
     sources=["crates/lib/src/action/worker.rs", "crates/lib/src/watchexec.rs", "crates/lib/src/late_join_set.rs", "crates/supervisor/src/job/task.rs"],
     rule="a case is one quit scenario (manner, instant, 1-4 jobs with behaviours and pre-quit controls); non-trivial = the shutdown takes virtual time; distinct by (scenario, observation)",
     assumptions=["the worker's quit branch (one task per job: stop_with_signal, delete().await; join; join job tasks) is a product of per-job runs of the job model read at one common instant (Jm.Finals): job tasks share nothing but the clock; the check driver composes the per-job model runs the same way and compares the real worker with them",
@@ -1902,6 +1902,75 @@ def cliquit_cases(seed, n):
         ops.append("a:" + r.choice(["400", "800"]))
         out.append(f"cq{seed}_{i} {','.join(flags)} {','.join(behs)} {';'.join(ops)}")
     return out
+
+SIGNUM_ALL = {"SIGHUP": 1, "SIGINT": 2, "SIGQUIT": 3, "SIGUSR1": 10, "SIGUSR2": 12, "SIGTERM": 15}
+
+def sigmap_cases(seed, n):
+    """--map-signal (translate / discard signals sent to watchexec, also INT and TERM) and keyboard EOF events in the CLI's action handler"""
+    r = random.Random(seed * 613 + 5)
+    out = ["sm1 --stop-timeout=50ms,--map-signal=SIGTERM:SIGUSR1 I init;a:30;sig:15;a:300", "sm2 --stop-timeout=50ms,--map-signal=SIGINT: I init;a:30;sig:2;a:100;sig:15;a:200",
+           "sm3 --map-signal=SIGHUP:SIGUSR2,--map-signal=SIGHUP:SIGUSR1 I init;a:30;sig:1;a:30;eof;a:30;sig:10;a:50", "sm4 --map-signal=SIGUSR1:SIGTERM,--stop-timeout=40ms I init;a:30;sig:10;a:100",
+           "sm5 --map-signal=SIGTERM:SIGINT,--stop-timeout=40ms I init;a:30;sig:15;a:60;sig:2;a:200", "sm6 --on-busy-update=restart,--map-signal=SIGINT:SIGHUP I,I init;a:30;eof;a:10;sig:2;a:10;chg;a:400"]
+    names = sorted(SIGNUM_ALL)
+    for i in range(n):
+        mode = r.choice(["do-nothing", "queue", "restart", "signal"])
+        flags = ["--on-busy-update=" + mode, "--stop-timeout=" + r.choice(["20ms", "50ms", "120ms"])]
+        if r.random() < 0.3: flags.append("--stop-signal=" + r.choice(["SIGINT", "SIGUSR2", "SIGQUIT", "SIGHUP"]))
+        for _ in range(r.randint(1, 3)):
+            flags.append("--map-signal=" + r.choice(["SIGTERM", "SIGINT", "SIGTERM", "SIGINT", "SIGHUP", "SIGUSR1", "SIGUSR2", "SIGQUIT"]) + ":" + r.choice([""] * 2 + names))
+        behs = []
+        for _ in range(r.randint(1, 3)):
+            k = r.random()
+            behs.append(f"E{r.choice([20, 100, 200])}" if k < 0.25 else f"S{r.choice([0, 10, 30])}" if k < 0.5 else "I")
+        ops = []
+        if r.random() < 0.85: ops += ["init", r.choice(["a:10", "a:30", "a:50"])]
+        for _ in range(r.randint(1, 5)):
+            ops.append(r.choice(["chg", "eof", "sig:15", "sig:2", "sig:15", "sig:2", "sig:10", "sig:1", "sig:12", "sig:3"]))
+            ops.append(r.choice(["a:5", "a:20", "a:50", "a:100", "a:150"]))
+        ops.append("a:" + r.choice(["400", "800"]))
+        out.append(f"sm{seed}_{i} {','.join(flags)} {','.join(behs)} {';'.join(ops)}")
+    return out
+
+def sigmap_oracle(case, trace):
+    cid, flags, behs, ops = case.split(" ")
+    fl = flags.split(",")
+    m = {}
+    for f in fl:
+        if f.startswith("--map-signal="):
+            a, b = f.split("=", 1)[1].split(":")
+            m[SIGNUM_ALL[a]] = SIGNUM_ALL[b] if b else None          # the last mapping given for a signal counts
+    ev = [e.split(":") for e in trace.split("|") if e]
+    out = []
+    now = 0; tq = None; rew = []
+    mode = next((f.split("=")[1] for f in fl if f.startswith("--on-busy-update=")), "do-nothing")
+    held = False        # restart mode: once a graceful restart may be pending, normal-priority controls (the passed-on signal) are held back
+    for o in ops.split(";"):
+        if o.startswith("a:"): now += int(o[2:]); rew.append(o); continue
+        if o == "chg" and mode == "restart": held = True
+        if o.startswith("sig:"):
+            n = int(o[4:])
+            if n in (15, 2) and n not in m:
+                if tq is None: tq = now
+                rew.append(o); continue
+            rew.append("sig:99")         # not a quit: passed on, translated or discarded
+            if tq is not None or held: continue  # the action worker handles nothing once it is quitting
+            want = m[n] if n in m else n
+            got = [p[3] for p in ev if p[1] == "signal" and int(p[0]) == now and len(p) > 3]
+            # is a process certainly there at this instant (spawned earlier, not reaped until later)?
+            there = [p[2] for p in ev if p[1] == "spawn" and int(p[0]) < now and not any(q[1] == "reaped" and q[2] == p[2] and int(q[0]) <= now for q in ev)]
+            what = f"signal {n} sent to watchexec at {now} ms (--map-signal: " + ("not mapped" if n not in m else "discarded" if want is None else f"mapped to {want}") + ")"
+            if want is None and got: out.append(f"{what}: the command was sent signal {','.join(got)} although the signal is to be discarded")
+            elif want is not None and any(g != str(want) for g in got): out.append(f"{what}: the command was sent signal {','.join(got)}")
+            elif want is not None and there and not got: out.append(f"{what}: the running command {there[0]} was sent nothing")
+            elif len(got) > 1: out.append(f"{what}: the command was signalled {len(got)} times")
+        elif o == "eof": rew.append("sig:99")
+        else: rew.append(o)
+    if tq is None:
+        if any(p[1] == "mainend" or p[1].startswith("mainerr") or p[1] == "mainpanic" for p in ev):
+            out.append("the main task ended although no unmapped interrupt / terminate signal was received (mapped ones are for the command, a keyboard EOF without --stdin-quit is nothing)")
+        return out
+    return out + cliquit_oracle(f"{cid} {flags} {behs} {';'.join(rew)}", trace)
+
 
 def cliquit_oracle(case, trace):
     cid, flags, behs, ops = case.split(" ")
